@@ -48,14 +48,18 @@ def confirm(seed_dir, out_dir, worker):
     if tests_dir is None or not demos:
         res["error"] = "cannot place demo (%r, %s)" % (loc, demos)
         return res
-    os.makedirs(os.path.join(work, tests_dir), exist_ok=True)
+    # a seed may come with demos for several crates: each file goes where the meta says it belongs (default: the first location)
+    per_crate = {}
     for d in demos:
-        shutil.copy(os.path.join(seed_dir, d), os.path.join(work, tests_dir, d))
-    cm = re.search(r"(cargo test[^&;|]*)", meta.get("demo_cmd", ""))
-    crate = tests_dir.split("/")[0]
-    demo_cmd = "cargo test -p %s --offline %s" % (crate, " ".join("--test " + d[:-3] for d in demos))
+        m2 = re.search(r"((?:model|solution|solver|server|internal)/tests)/" + re.escape(d), loc)
+        td = m2.group(1) if m2 else tests_dir
+        os.makedirs(os.path.join(work, td), exist_ok=True)
+        shutil.copy(os.path.join(seed_dir, d), os.path.join(work, td, d))
+        per_crate.setdefault(td.split("/")[0], []).append(d)
+    demo_cmd = " && ".join("cargo test -p %s --offline %s" % (crate, " ".join("--test " + d[:-3] for d in ds))
+                           for crate, ds in sorted(per_crate.items()))
     res["demo_cmd"] = demo_cmd
-    rc, out, t = run("timeout 600 " + demo_cmd, work, env)
+    rc, out, t = run("timeout 900 bash -c %r" % demo_cmd, work, env)
     res["demo_without_patch"] = {"rc": rc, "s": round(t, 1), "tail": out[-600:] if rc else ""}
     rc, out, t = run("patch -p1 --no-backup-if-mismatch < %s" % os.path.join(seed_dir, "patch.diff"), work, env)
     res["patch_applies"] = rc == 0
@@ -69,7 +73,7 @@ def confirm(seed_dir, out_dir, worker):
     passed = sum(int(x) for x in re.findall(r"test result: \w+\. (\d+) passed", out))
     failed = sum(int(x) for x in re.findall(r"test result: \w+\. \d+ passed; (\d+) failed", out))
     res["baseline_with_patch"] = {"rc": rc, "passed": passed, "failed": failed, "s": round(t, 1)}
-    rc, out, t = run("timeout 600 " + demo_cmd, work, env)
+    rc, out, t = run("timeout 900 bash -c %r" % demo_cmd, work, env)
     res["demo_with_patch"] = {"rc": rc, "s": round(t, 1), "tail": out[-900:]}
     res["confirmed"] = (res["demo_without_patch"]["rc"] == 0 and res["build_with_patch"]["rc"] == 0
                         and passed == 53 and failed == 0 and res["demo_with_patch"]["rc"] not in (0, 124) or
